@@ -38,7 +38,7 @@ def pids_for(files):
 
 
 jobs = []
-for d in sorted(glob.glob('/tmp/refac-%s-out/r*' % name)):
+for d in sorted([d for d in glob.glob('/tmp/refac-%s-out/r[0-9]' % name) if os.path.isdir(d)]):
     patch = os.path.join(d, 'patch.diff')
     files = re.findall(r'^\+\+\+ b/(\S+)', open(patch).read(), re.M)
     for pid in pids_for(files):
@@ -59,7 +59,7 @@ def run(j):
 with ThreadPoolExecutor(J) as ex:
     res = list(ex.map(run, jobs))
 os.makedirs('/verif/seeded/harmless', exist_ok=True)
-for d in sorted(glob.glob('/tmp/refac-%s-out/r*' % name)):
+for d in sorted([d for d in glob.glob('/tmp/refac-%s-out/r[0-9]' % name) if os.path.isdir(d)]):
     dst = '/verif/seeded/harmless/%s-%s' % (name, os.path.basename(d))
     os.makedirs(dst, exist_ok=True)
     for f in ('patch.diff', 'meta.json'):
